@@ -24,7 +24,9 @@ import (
 func ReconnSchema() *abs.Schema {
 	col := func(t string) abs.Col { return abs.Col{Key: abs.BaseT{T: t}, Min: 1, Max: 1, Mut: true} }
 	tbl := func() abs.Table {
-		return abs.Table{IsRoot: true, Cols: map[string]abs.Col{"name": col("string"), "v": col("integer")}}
+		// tags: a set, changed by mutations - its update2 difference is not idempotent (applied twice it toggles back)
+		return abs.Table{IsRoot: true, Cols: map[string]abs.Col{"name": col("string"), "v": col("integer"),
+			"tags": {Key: abs.BaseT{T: "string"}, Min: 0, Max: -1, Mut: true}}}
 	}
 	return &abs.Schema{Name: "rdb", Tables: map[string]abs.Table{"T1": tbl(), "T2": tbl(), "T3": tbl()}}
 }
@@ -122,12 +124,12 @@ func RunReconn(b *abs.Built, tok *abs.Tokens, dir string, c ReconnCase, rec *rec
 	}
 	tables := []string{"T1", "T2", "T3"}
 	for i, m := range c.Methods {
-		id, err := cli.Monitor(m, map[string][]string{tables[i]: {"name", "v"}})
+		id, err := cli.Monitor(m, map[string][]string{tables[i]: {"name", "v", "tags"}})
 		if err != nil {
 			return nil, fmt.Errorf("monitor: %v", err)
 		}
 		if err := rec.Emit(map[string]interface{}{"ev": "cmonitor", "db": 0, "cli": 1, "mon": id, "method": m,
-			"tables": map[string]interface{}{tables[i]: []interface{}{"name", "v"}}}); err != nil {
+			"tables": map[string]interface{}{tables[i]: []interface{}{"name", "v", "tags"}}}); err != nil {
 			return nil, err
 		}
 	}
@@ -151,7 +153,9 @@ func RunReconn(b *abs.Built, tok *abs.Tokens, dir string, c ReconnCase, rec *rec
 		case kind == "delete":
 			o = abs.AOp{Op: "delete", Table: t, Where: [][]interface{}{{"_uuid", "==", rows[0], "atom"}}}
 		default:
-			o = abs.AOp{Op: "update", Table: t, Where: [][]interface{}{{"_uuid", "==", rows[len(rows)-1], "atom"}}, Row: map[string]interface{}{"v": version}}
+			// the version, and one more tag: the notification carries a set difference
+			o = abs.AOp{Op: "mutate", Table: t, Where: [][]interface{}{{"_uuid", "==", rows[len(rows)-1], "atom"}},
+				Mutations: [][]interface{}{{"v", "+=", 1, "atom"}, {"tags", "insert", []interface{}{fmt.Sprintf("t%d", version)}, "set"}}}
 		}
 		o.Normalize()
 		// not recorded as a transaction event: client transactions run concurrently,
